@@ -1,6 +1,7 @@
 import InjModel.Model.Sig
 import Driver.Util
 import Driver.Arm
+import Driver.Gen
 namespace Driver
 open Inj Inj.Sig
 
@@ -203,6 +204,7 @@ def handleBoolGate (args obs : List String) : Verdict :=
       let isBool := match f.ret with | Ty.prim 0 => true | _ => false
       let want := if isBool then "accept" else "sigpanic"
       let pOk := out == want && (out == "accept" || (kv obs "restored" == some "1" && (kv obs "os" == none || kv obs "os" == some "0")))
+      Gen.withGen' (Gen.sigBool (spell (parseDescr [] d |>.map (·.2) |>.getD []) (renderFn f)) out) <|
       { agree := out == (if m then "accept" else "sigpanic"), propOk := pOk,
         branch := "boolgate" ++ (if isBool then "+bool" else "+other"),
         detail := (if out == (if m then "accept" else "sigpanic") then "" else "model=" ++ toString m) ++
@@ -224,6 +226,11 @@ def handleBoolStr (args obs : List String) : Verdict :=
     let out := obs.headD "?"
     let m := if boolGate toks then "accept" else "sigpanic"
     let want := if boolGateTopLevel toks then "accept" else "sigpanic"
+    -- the text the harness recorded for this code string (harness/hx/src/sigs.rs, same alphabet)
+    let text := String.join (codes.toList.map fun c =>
+      if c == 'f' then "fn" else if c == '(' then "(" else if c == ')' then ")" else if c == '>' then " -> "
+      else if c == 'b' then "bool" else if c == 'u' then "u8" else if c == ',' then ", " else if c == '&' then "&" else "é")
+    Gen.withGen' (Gen.sigBool text out) <|
     { agree := out == m, propOk := out == want,
       branch := "boolstr" ++ (if want == "accept" then "+accept" else "+refuse"),
       detail := (if out == m then "" else "model=" ++ m) ++
